@@ -559,6 +559,9 @@ func TestVerifC04Damage(t *testing.T) {
 						}
 						return "", ""
 					})
+					if sig == "deleted-sample-replayed-from-wal" {
+						sig = "phantom-sample" // KF-C03-3 needs a dropped block; the damage tables already allow deleted samples (may = ever written)
+					}
 					nrun.Add(1)
 					mu.Lock()
 					cls := d.file + "/" + d.region + "/" + d.kind
